@@ -23,14 +23,14 @@ claimed = {
          "assumed: the element lattice satisfies the semilattice laws (that is the hypothesis of the statement), container/heap touches only the heap slice; NOT decided: that the dense and sparse solvers reach the least fixpoint, DenseMapLattice.Equals, termination", "DESIGN.md §7 C13"),
  "C14": ("proof that the pre/post numbering of the dominator tree makes Dominates exact: numberDomTree assigns numbers such that interval containment equals the subtree relation (for all forests, unbounded), Dominates/Idom/Dominees read exactly those fields, both listings contain every block; BOUNDED (not proof): the Lengauer-Tarjan core buildDomTree is run on every CFG with <= 4 (quick) / <= 5 (thorough) blocks incl. a disjoint recover region and compared with the definition of dominance",
          "assumed: the forest axioms (sub/cidx/csum exist for every finite forest; paper step), sort.Slice permutes; NOT decided beyond the bound: exactness of idom computed by Lengauer-Tarjan for more than 5 blocks", "DESIGN.md §7 C14"),
- "C15": ("proof that the nilness join is sound w.r.t. the concretisation (gamma) for all 25 pairs per component, and that the merge table stays a semilattice",
-         "NOT decided: local soundness of the transfer rules in processBlock, fact import/export, SA4023; the standard abstract-interpretation argument from local soundness to global soundness is a paper step", "DESIGN.md §7 C15"),
+ "C15": ("proof that the nilness join is sound w.r.t. the concretisation (gamma) for all 25 pairs per component and that the merge table stays a semilattice; that the abstract state (state.get/set/setInner/setOuter) denotes a valuation of IR values that changes only at the key written (frame over all other values) and never erases a value's default; that normalize keeps the valuation well-formed; and that the transfer rule for builtin calls (handleReturnValue) implements a rule table proved sound against the concrete semantics of the builtins (lemma builtin_rule_sound)",
+         "assumed: the lazy numbering is an injective function num (axiom), the concrete semantics canBe of the eight builtins (ghost definition, transcribed from the language spec), typeutil.IsPointerLike and the ir observers; NOT decided: local soundness of the remaining transfer rules in processBlock (loads, phis, type assertions, sigma nodes), fact import/export, SA4023; the standard abstract-interpretation argument from local soundness to global soundness is a paper step", "DESIGN.md §7 C15"),
  "C17": ("proof that the U1000 verdict is a function of the edge set and merged over variants as stated: SerializedGraph.color is a sound and complete reachability colouring (seen contains the root, is closed under use edges, and is contained in every edge-closed predicate containing the root), quieten never touches the seen bits, Results partitions the nodes by (seen, quiet), and linter.lint keys Used and Unused objects identically and reports exactly the collected unused objects whose key no result marked used",
          "assumed: the least-fixpoint step from (closed, contains root, contained in every closed predicate) to 'seen == reachable' (paper), monotonicity of reachability in the edge set (paper); NOT decided: that the AST walk produces the same edge set under file/declaration permutation, SerializedGraph.Merge (whole-program mode)", "DESIGN.md §7 C17"),
  "C19": ("proof that go/gcsizes implements the compiler's layout rules for every type: Sizeof, Alignof and Offsetsof equal a trusted specification transcribed from go/types' gcSizes (basic sizes, strings/slices/interfaces, arrays, structs with trailing zero-size field rule, complex alignment, max-align clamp) via mutual induction; cmd/structlayout.sizes appends entries that start at the given base and leave earlier entries untouched; structlayout-optimize: align, offsetsof, size, Swap, Less is the documented order and a strict weak order, pad produces a tiling of [0,total) in which every field is aligned and total is a multiple of the largest alignment",
          "assumed: the transcription of the compiler's rules (axioms gcspec, listed), go/types observers, targets (8,8) and (4,4) only; sort.Sort sorts w.r.t. Less (optimize is one call of it); NOT decided: that the entries of structlayout.sizes chain without gaps up to base+size (obligations sizes#post.chain/#post.end do not discharge and are not counted), combine, minimality of the sorted layout, JSON plumbing", "DESIGN.md §7 C19"),
  "C20": ("proof that a version-restricted problem is reported exactly when the effective language and standard-library versions lie in the range: report.Report (iff), the four option setters set exactly their own field (frame), code.StdlibVersion / LanguageVersion follow the documented rules",
-         "assumed: go/version.Compare, types.Info.FileVersions, Package.GoVersion (dependencies); NOT decided: -go flag parsing and the loader's choice of types.Config.GoVersion", "DESIGN.md §7 C20"),
+         "assumed: go/version.Compare, types.Info.FileVersions, Package.GoVersion (dependencies); the loader (loadFromSource) passes the -go flag value or the module version to types.Config.GoVersion (at-call assertion) and the flag parser accepts exactly module|1.N; NOT decided: go/types honouring GoVersion", "DESIGN.md §7 C20"),
 }
 
 na = {
